@@ -165,6 +165,11 @@ class Interp:
         if isinstance(n, ast.Call):
             return self.call(n)
         if isinstance(n, ast.IfExp):
+            tv = self.truth(n.test)
+            if tv is None and norm(n.test) in getattr(self.ctx, 'facts', {}):
+                tv = self.ctx.facts[norm(n.test)]
+            if tv is not None:
+                return self.ev(n.body if tv else n.orelse)
             a, b = self.ev(n.body), self.ev(n.orelse)
             return a if a == b else None
         return None
@@ -545,6 +550,8 @@ class Interp:
 
     def truth(self, t):
         """truth of a test on ranks / literal integers; None when not decided"""
+        if isinstance(t, ast.Constant) and isinstance(t.value, bool):
+            return t.value
         if isinstance(t, ast.Compare) and len(t.ops) == 1:
             a, b = self.ev(t.left), self.ev(t.comparators[0])
             if a is not None and b is not None and a[0] == 'int' and b[0] == 'int':
